@@ -16,10 +16,23 @@ BATCH = 40
 
 
 def make_doc(keys, table):
-    names = list(gens.SUPPORT) + [k for k in keys if k not in gens.SUPPORT]
-    entries = [table[k] for k in names]
+    # 'solo:' documents contain nothing but their own entries (the support entries would add enum members, which
+    # carry compiler-generated c:identifier attributes, to the attribute table)
+    support = [] if all(k.startswith('solo:') for k in keys) else list(gens.SUPPORT)
+    names = support + [k for k in keys if k not in gens.SUPPORT]
+    entries = []
+    for k in names:
+        e = table[k]
+        entries.extend(e if isinstance(e, list) else [e])
     return girgen.Doc('Test', '1.0', entries, includes=[('GObject', '2.0'), ('GLib', '2.0')],
                       shared_library='libtest.so.0', c_prefix='C', symbol_prefix='c')
+
+
+def batch_keys(keys, size):
+    """Keys starting with 'solo:' are compiled alone (their document shape is the point), the rest in batches."""
+    solo = [[k] for k in keys if k.startswith('solo:')]
+    rest = [k for k in keys if not k.startswith('solo:')]
+    return [rest[i:i + size] for i in range(0, len(rest), size)] + solo
 
 
 def check_doc(b, doc, wd, twice=True):
@@ -93,7 +106,7 @@ def run(ctx):
         cbuild.build(True)
     entries = gens.all_entries(ctx.tier)
     keys = [k for k, e in entries if k not in gens.SUPPORT]
-    batches = [keys[i:i + BATCH] for i in range(0, len(keys), BATCH)]
+    batches = batch_keys(keys, BATCH)
     ctx.set(rule='every entry produced by vt/c/gens.py (one element kind at a time, cross product of its own attributes; '
                  '%s domains) is compiled in batches of %d by the rebuilt g-ir-compiler%s, decoded by vt/typelib.py, '
                  'checked against the format invariants and matched against the expected model; each batch is compiled '
